@@ -823,7 +823,7 @@ func genTpl(t *pty, depth int, o *tplOpts) *tnode {
 			ne := pick([]int{0, 1, 1, 2, 3})
 			seen := map[string]bool{}
 			for j := 0; j < ne; j++ {
-				k := pick([]string{"a", "b", "key", "k 1", "ü", "long-key-" + strings.Repeat("k", 20)})
+				k := pick([]string{"a", "b", "key", "k 1", "ü", "long-key-" + strings.Repeat("k", 20), "a\x01b", "bell\a", "del\x7f", "q\"uote\\", "\U000E0001", "<&>"})
 				if o.mapZero {
 					k = ""
 				}
